@@ -652,6 +652,8 @@ def evf_cases(r, tier):
     rules = E.systematic_rules()
     if tier == 'quick':
         rules = rules[::2]
+    # the 1-octet / 2-octet NLRI length boundary and the 12-bit limit are never sampled away
+    rules += [E.rule_of_len(L) for L in (237, 238, 239, 240, 241, 242, 243, 255, 256, 257, 4094, 4095, 4096)]
     rules += [[[t, E.ops_text(E.rnd_groups(r))] for t in r.sample(E.FS_OP_TYPES, r.randint(1, 4))]
               for _ in range(300 if tier == 'quick' else 20000)]
     for t in E.FS_OP_TYPES:
